@@ -30,6 +30,10 @@ ExpA(r) ==
    wit   |-> [m \in Members |-> ExpWit(ops', K, m)],
    pend  |-> ExpPending(ops', K)]
 
+\* reset_remove(c) of the state the replica is in, for every clock of the bounded
+\* universe.  OrReset *is* the declarative reading (drop every covered dot, prune
+\* what becomes empty, join pending removes whose contexts coincide); the FIFO
+\* configs additionally check OrReset(st[r], c) = ExpAfterReset(ops, know[r], c).
 CUSeq == SetToSeq(ClockU)
 
 Line ==
@@ -42,7 +46,7 @@ Line ==
    vop |-> [q \in Reps |-> [i \in 1..Len(ops') |-> ExpValidate(ops', know'[q], i)]],
    vm  |-> [q \in Reps |-> OrValidateMerge(st'[r], st'[q])],
    rs  |-> IF DumpReset
-           THEN [i \in 1..Len(CUSeq) |-> <<CUSeq[i], ProjB(ExpAfterReset(ops', know'[r], CUSeq[i]))>>]
+           THEN [i \in 1..Len(CUSeq) |-> <<CUSeq[i], ProjB(OrReset(st'[r], CUSeq[i]))>>]
            ELSE <<>>]
 
 Edge == Who = 0 \/ PrintT(<<"E", ToJson(Line)>>)
